@@ -2,7 +2,8 @@
 From Coq.Strings Require Import Byte String.
 From Coq Require Import List NArith Bool.
 Import ListNotations.
-From V Require Import lib.Bytes spec.HtmlTok spec.HtmlRefs model.Escape model.StyleAttr model.DocFrag spec.DocExpect.
+From V Require Import lib.Bytes spec.HtmlTok spec.HtmlRefs model.Escape model.StyleAttr model.DocFrag spec.DocExpect
+  model.ScriptCtx spec.ScriptExpect.
 Require Extraction.
 Require Import ExtrOcamlBasic.
 
@@ -191,6 +192,21 @@ Fixpoint dec_trees (fuel : nat) (a : list bytes) : option (list tree) :=
            end
   end.
 
+(* ---- script operations on one context: prefix encoding
+        op: I N (name fn call inline)* | R name fn call inline | J id ty 0/1 own body ---- *)
+Definition dec_cs (a : list bytes) : option (cscript * list bytes) :=
+  match a with n :: f :: c :: i :: r => Some (CS n f c i, r) | _ => None end.
+Definition dec_sop (a : list bytes) : option (sop * list bytes) :=
+  match a with
+  | tg :: r =>
+      if is tg "I" then bind l r' <- counted dec_cs r; Some (OItems l, r')
+      else if is tg "R" then bind s r' <- dec_cs r; Some (ORender s, r')
+      else if is tg "J" then match r with id :: ty :: o :: own :: body :: r' => Some (OJson id ty (if tb1 o then Some own else None) body, r') | _ => None end
+      else None
+  | [] => None
+  end.
+Definition dec_name (a : list bytes) : option (bytes * list bytes) := match a with n :: r => Some (n, r) | [] => None end.
+
 Definition dispatch (f : bytes) (a : list bytes) : list bytes :=
   if is f "escape" then [escape (arg 0 a)]
   else if is f "esc_check" then
@@ -229,6 +245,22 @@ Definition dispatch (f : bytes) (a : list bytes) : list bytes :=
     match dec_trees (S (length a)) a with
     | Some l => [b2 true; b2 (forallb wf l); flat_map render l] ++ enc_tokens (flat_map expected l) []
     | None => [b2 false]
+    end
+  else if is f "script_ops" then
+    (* args: keep (0/1), nonce, N already-rendered names, N operations.  reply: ok?, ops_wf?, render_ops' bytes, then the
+       expected tokens (spec/ScriptExpect.v) *)
+    match a with
+    | k :: nonce :: r =>
+        match counted dec_name r with
+        | Some (seen, r1) =>
+            match counted dec_sop r1 with
+            | Some (ops, []) => [b2 true; b2 (ops_wf (tb1 k) nonce seen ops); render_ops (tb1 k) nonce seen ops]
+                                ++ enc_tokens (ops_expected (tb1 k) nonce seen ops) []
+            | _ => [b2 false]
+            end
+        | None => [b2 false]
+        end
+    | _ => [b2 false]
     end
   else [bs "?"].
 
